@@ -33,8 +33,14 @@ def make_delayer(ranks: Dict[int, int], delta: float, first_ref: int):
 
         def handle(self, message):
             ia = message.data
-            if not ia.reverseStrand and int(ia.reference.moleculeId) == self.first_ref and int(ia.query.shift) == 0:
-                time.sleep(self.ranks.get(int(ia.query.moleculeId), 0) * self.delta)
+            if not ia.reverseStrand and int(ia.reference.moleculeId) == self.first_ref:
+                key = (int(ia.query.moleculeId), int(ia.query.shift), len(ia.query.positions))
+                whole = self.ranks.get(("n", key[0])) == key[2] and key[1] == 0
+                if whole:
+                    time.sleep(self.ranks.get(key[0], 0) * self.delta)
+                else:   # a second-pass fragment: pseudo-random rank from the schedule's salt (leading vs trailing)
+                    import zlib
+                    time.sleep((zlib.crc32(repr((self.ranks.get("salt", 0), key)).encode()) % 4) * self.delta)
 
     return Delayer(ranks, delta, first_ref)
 
@@ -78,8 +84,8 @@ def run(ctx: Ctx):
     cli_cpus = [1, 3, 8] if quick else [1, 2, 3, 5, 8, 16]
     lines, tags = [], []
     for k in range(n_inputs):
-        inp = pipecases.make_input(rng, n_refs=2, n_qry=6, kinds=["noisy", "indel", "split", "mirror", "dropped", "exact"],
-                                   ref_labels=(60, 110))
+        inp = pipecases.make_input(rng, n_refs=2, n_qry=6, kinds=["noisy", "flankdup", "split", "mirror", "flankdup", "flankdup"],
+                                   ref_labels=(260, 300), decimals=False, lattice=100)
         wd = os.path.join(ctx.workdir, f"c09-{k}")
         rp, qp = pipecases.write_input(wd, inp, "in")
         qids = [q["id"] for q in inp["qrys"]]
@@ -104,6 +110,8 @@ def run(ctx: Ctx):
         runs.append({"label": "in-process sequential", "digest": [f"{n}:{d}" for n, d in sorted(base["digest"].items())]})
         for s_i, sched in enumerate(rng.sample(schedules, n_sched)):
             ranks = {qids[t - 1]: pos for pos, t in enumerate(sched)}
+            ranks.update({("n", q["id"]): len(q["x"]) for q in inp["qrys"]})
+            ranks["salt"] = s_i
             prefix = os.path.join(wd, f"steer{s_i}.rec")
             exts = pipeline.make_recorders(prefix) + [make_delayer(ranks, 0.12, first_ref)]
             out = os.path.join(wd, f"steer{s_i}.xmap")
@@ -119,6 +127,24 @@ def run(ctx: Ctx):
             tags.append({"input": k, "mode": "single", "schedule": sched, "pids": len({e["pid"] for e in ev})})
             if len({e["pid"] for e in ev}) >= 2:
                 ctx.nontrivial((k, "steered", tuple(sched)))
+        # steered completion orders in the multi-pass mode too (second-pass fragments of one query are tasks as well)
+        base_all = pipecases.run_once(wd, rp, qp, "all_seq", "all")
+        runs_all = [{"label": "in-process sequential", "digest": [f"{n}:{d}" for n, d in sorted(base_all["digest"].items())]}]
+        for s_i, sched in enumerate(rng.sample(schedules, n_sched)):
+            ranks = {qids[t - 1]: pos for pos, t in enumerate(sched)}
+            ranks.update({("n", q["id"]): len(q["x"]) for q in inp["qrys"]})
+            ranks["salt"] = 100 + s_i
+            out = os.path.join(wd, f"steerall{s_i}.xmap")
+            argv = pipeline.arg_list(rp, qp, out, "all", 3)
+            status, res = pipeline.run_inprocess(argv, [make_delayer(ranks, 0.1, first_ref)], real_pool=True)
+            if status != "ok":
+                raise tlc.MachineryError(f"steered multi-pass run failed: {status} {str(res)[-400:]}")
+            files = pipeline.output_files(out, "all")
+            runs_all.append({"label": f"real pool -c 3, mode all, steered {sched} salt {100 + s_i}",
+                             "digest": [f"{n}:{pipeline.body_digest(p)}" for n, p in sorted(files.items())]})
+            ctx.nontrivial((k, "steered-all", tuple(sched)))
+        lines.append({"order": qids, "exec": [], "runs": runs_all})
+        tags.append({"input": k, "mode": "all", "steered": True})
         pipeline.install_sequential_map()
         shutil.rmtree(wd, ignore_errors=True)
     verdicts, r = batch.validate("Trace_Pool", "Trace_Pool.cfg", ctx.workdir, lines)
